@@ -302,14 +302,14 @@ class Summarizer:
                 self._taint = 1 << 30
         return r
 
-    def is_wrapper(self, inst_idx):
+    def is_wrapper(self, inst_idx, as_root=False):
         """An instance whose body we have and whose pruned CFG is acyclic."""
         F = self.F
         inst = F.instances[inst_idx]
         d = inst["d"]
         if d not in F.bodies or inst["k"] != "item":
             return False
-        if F.fid(d) in self.terminal_fids:
+        if not as_root and F.fid(d) in self.terminal_fids:
             return False
         a = self._acyclic.get(d)
         if a is None:
